@@ -181,3 +181,20 @@ def short(path):
     """shorten a def path for messages (keeps it unambiguous enough)"""
     s = path.replace("passkey_authenticator::", "pa::").replace("passkey_types::", "pt::").replace("passkey_client::", "pc::")
     return s if len(s) < 140 else s[:60] + "…" + s[-70:]
+
+
+def api_name(body):
+    """stable public-API style name of the function a body belongs to: 'Type::method' / 'Type as Trait::method'"""
+    if body is None:
+        return "?"
+    ri = body.j.get("root_item")
+    root = body.root
+    name = root.rsplit("::", 1)[-1]
+    suffix = body.path[len(root):]
+    if ri and "impl" in ri:
+        st = (ri["impl"].get("self_adt") or ri["impl"].get("self_ty") or "?").rsplit("::", 1)[-1]
+        tr = ri["impl"].get("trait")
+        base = "%s as %s::%s" % (st, tr.rsplit("::", 1)[-1], name) if tr else "%s::%s" % (st, name)
+    else:
+        base = "::".join(root.split("::")[-2:]) if root.count("::") > 1 else root
+    return base + suffix.replace("::{closure#0}", "", 1) if suffix.startswith("::{closure#0}") and body.is_coroutine else base + suffix
